@@ -140,7 +140,7 @@ impl NetcodeServer {
             connect_key,
             max_clients: config.max_clients,
             challenge_sequence: 0,
-            global_sequence: 0,
+            global_sequence: 1 << 63,
             challenge_key,
             public_addresses: config.public_addresses,
             current_time: config.current_time,
